@@ -70,7 +70,7 @@ Fixpoint dec_value (l : list N) (acc : N) : N :=
   end.
 
 Definition all_digits (l : list N) : bool :=
-  match l with [] => false | _ => forallb is_digit l end.
+  match l with [] => false | _ => forallb ascii_digit l end.
 
 (* strconv.ParseUint(val, 10, 32) *)
 Definition parse_uint (v : str) : option N :=
@@ -93,7 +93,7 @@ Definition parse_int (v : str) : option Z :=
   else None.
 
 Definition hex_val (c : N) : N :=
-  if is_digit c then c - 48 else if 97 <=? c then c - 87 else c - 55.
+  if ascii_digit c then c - 48 else if 97 <=? c then c - 87 else c - 55.
 
 Fixpoint hex_value (l : list N) (acc : N) : N :=
   match l with
@@ -114,7 +114,7 @@ Definition parse_hex_int (hex : bool) (v : str) : option N :=
     let body := skipn 2 v in
     match body with
     | [] => None
-    | _ => if forallb is_hex body then
+    | _ => if forallb (is_hex no_ud) body then
              let n := hex_value body 0 in
              if n <? 4294967296 then Some n else None
            else None
@@ -793,8 +793,8 @@ Definition parse_tokens (prs : str -> option N) (hex : bool) (pts : list rtoken)
   | ROutOfFuel => OOutOfFuel
   end.
 
-Definition parse (prs : str -> option N) (hex : bool) (text : list N) : outcome :=
-  match lex text with
+Definition parse (ud : N -> bool) (prs : str -> option N) (hex : bool) (text : list N) : outcome :=
+  match lex ud text with
   | Some raw => parse_tokens prs hex (pfilter raw)
   | None => OOutOfFuel
   end.
